@@ -51,6 +51,9 @@ MUTANTS = [
     ("M70", "acl.py", "                    shadow.add(ace_bottom.line)\n", "", "C11 C04"),
     ("M71", "acl.py", "            idx = aces.index(top) + 1", "            idx = aces.index(top)", "C04"),
     ("M72", "acl.py", "            items_bot = [o for o in items_bot if o.line not in shadow]", "            items_bot = [o for o in items_bot if o.line not in shadow and not isinstance(o, Remark)]", "C04"),
+    ("M80", "ace.py", "                for item in ace_o_.dstport.items:\n                    ace_o = ace_o_.copy()", "                for item in ace_o_.dstport.items[:2]:\n                    ace_o = ace_o_.copy()", "C19 C02"),
+    ("M81", "acl.py", "                aces: LAce = ace_o.ungroup_ports()\n                _items.extend(aces)\n                continue\n            if isinstance(ace_o, AceGroup):", "                aces: LAce = ace_o.ungroup_ports()\n                _items = aces + _items\n                continue\n            if isinstance(ace_o, AceGroup):", "C19 C02"),
+    ("M82", "ace.py", "        if len(aces) == 1:\n            return [self]\n", "", "C19 C16"),
     ("M30", "port.py", "            return [ports[0] - 1] if ports else [65535]", "            return [ports[0]] if ports else [65535]", "C08"),
     ("M31", "port.py", "            return [ports[-1] + 1] if ports else [1]", "            return [ports[1] + 1] if ports else [1]", "C08"),
     ("M32", "port.py", "        ports = sorted(ports)\n        if operator == \"eq\":", "        if operator == \"eq\":", "C08"),
